@@ -309,8 +309,49 @@ def prove_bounded(src_root, ex: Explorer, res, which, n):
     res.bounded.append({'obligations': '*[bounded]', 'bound': 'lists of 1..2 transfers, all fields symbolic', 'counted_as_proved': False})
 
 
+def prove_takes_slot(src_root, ex: Explorer):
+    """Slot accounting across the tasks manage_transfers starts: free slots are counted from the transfers that are INITIALIZING or
+    UPLOADING, and a started upload is skipped by the next selection only through its task.  Hence the task must take its slot - the
+    transition to INITIALIZING - BEFORE its first suspension on anything else (network send, waiting for the peer): otherwise the slot and
+    the user look free to the next management cycle while the request is in flight.  Same for the download task."""
+    def path(ctx: Ctx):
+        it = mk(src_root, ctx)
+        which = ['_initialize_upload', '_initialize_download'][ctx.choose(2, 'task')]
+        calls = []
+
+        def rec(name, yields):
+            return Recorder(name, fn=lambda it2, a, k: calls.append(name), is_async=True, yields=yields)
+        st = Stub('state', initialize=rec('state.initialize', False), queue=rec('state.queue', False), fail=rec('state.fail', False),
+                  incomplete=rec('state.incomplete', False), VALUE=Opaque('value'))
+        t = Stub('transfer', state=st, username='bob', remote_path='f', filesize=10, local_path='/x', direction=Opaque('dir'))
+        net = Stub('network', send_peer_messages=rec('network.send_peer_messages', True), create_peer_response_future=rec('network.create_peer_response_future', True),
+                   create_peer_connection=rec('network.create_peer_connection', True))
+        mgr = new(it, MGR, 'TransferManager', _network=net, _ticket_generator=iter([7, 8, 9]))
+        seen = []
+
+        def on_yield(it2, label):
+            if not seen:
+                seen.append(label)
+                ctx.prove(f'C05.{which}.takes-slot-first', calls[:1] == ['state.initialize'],
+                          f'the task suspends on {label} before the transfer is INITIALIZING: its slot looks free to the next management cycle')
+            raise PathAbort()
+        it.aio.on_yield = on_yield
+        it.natives['builtins.next'] = Native('builtins.next', lambda it2, a, k: 7)
+        try:
+            if which == '_initialize_upload':
+                run(it, it.getattr(mgr, which), t)
+            else:
+                conn = Stub('connection', send_message=rec('connection.send_message', True), username='bob')
+                run(it, it.getattr(mgr, which), t, conn, Stub('request', filesize=10, ticket=3))
+        except PyRaise:
+            pass
+        if not seen:
+            ctx.prove(f'C05.{which}.takes-slot-first', calls[:1] == ['state.initialize'], 'the task never takes its slot')
+    ex.run(path, 'takes-slot')
+
+
 def items(src_root, tier):
-    return [('step', None), ('rank', None), ('slots', None)] + [('bounded', ('selection', n)) for n in (1, 2)] + [('bounded', ('manage', n)) for n in (1, 2)]
+    return [('step', None), ('rank', None), ('slots', None), ('takes-slot', None)] + [('bounded', ('selection', n)) for n in (1, 2)] + [('bounded', ('manage', n)) for n in (1, 2)]
 
 
 def run_item(src_root, item, tier):
@@ -324,12 +365,15 @@ def run_item(src_root, item, tier):
             prove_rank(src_root, ex)
         elif kind == 'slots':
             prove_free_slots(src_root, ex)
+        elif kind == 'takes-slot':
+            prove_takes_slot(src_root, ex)
         elif kind == 'bounded':
             prove_bounded(src_root, ex, res, arg[0], arg[1])
     except Unsupported as e:
         res.errors.append(f'{kind}: unsupported: {e}')
     collect(res, ex)
     res.functions.update([f'{MGR}:TransferManager.{m}' for m in ('_get_queued_transfers', '_prioritize_uploads', 'manage_transfers',
-                                                                'get_free_upload_slots', 'has_slots_free', 'get_upload_slots', 'get_uploading')])
+                                                                'get_free_upload_slots', 'has_slots_free', 'get_upload_slots', 'get_uploading',
+                                                                '_initialize_upload', '_initialize_download')])
     res.functions.update([f'{MODEL}:Transfer.is_processing', f'{MODEL}:Transfer.is_upload'])
     return res
